@@ -202,16 +202,30 @@ class DenseOutput(object):
             self.__t_eval_arr_stale = False
         return self.__t_eval_arr
 
+    def __stored_backward(self):
+        # The pieces of a backward integration are inserted at the front, which keeps t_eval increasing,
+        # but piece i then spans [t_eval[i], t_eval[i + 1]] instead of [t_eval[i - 1], t_eval[i]].
+        if len(self.y_interpolants) == 0:
+            return False
+        piece = self.y_interpolants[0]
+        return hasattr(piece, "t0") and hasattr(piece, "t1") and bool(piece.t1 < piece.t0)
+
     def find_interval(self, t):
         if self.t_eval is None:
             raise ValueError("No interpolant has been added and time interval is not defined!")
-        return min(deutil.search_bisection(self.t_eval, t), len(self.y_interpolants) - 1)
+        idx = min(deutil.search_bisection(self.t_eval, t), len(self.y_interpolants) - 1)
+        if idx > 0 and t < self.t_eval[idx] and self.__stored_backward():
+            idx = idx - 1
+        return idx
 
     def find_interval_vec(self, t):
         if self.t_eval is None:
             raise ValueError("No interpolant has been added and time interval is not defined!")
         out = deutil.search_bisection_vec(self.t_eval_arr, t)
         out[out > len(self.y_interpolants) - 1] = len(self.y_interpolants) - 1
+        if self.__stored_backward():
+            shift = (out > 0) & (t < D.ar_numpy.take(self.t_eval_arr, out, axis=0))
+            out[shift] = out[shift] - 1
         return out
 
     def __call__(self, t):
@@ -1069,7 +1083,8 @@ class OdeSystem(object):
 
                     if not self.__dense_output:
                         for _ in range(__pre_length - 1):
-                            self.__sol.remove_interpolant(0)
+                            # drop the oldest piece: it is the last one when integrating backward
+                            self.__sol.remove_interpolant(0 if dTime >= 0 else -1)
 
                 steps += 1
                 
